@@ -270,3 +270,12 @@ Proof.
   destruct (text_eqb v t0) eqn:E2; cbn [andb negb bind] in H'; [|discriminate].
   apply text_eqb_eq in E1, E2. congruence.
 Qed.
+(** an empty aggregate that loses its end tag *)
+Lemma accept_unclose_empty p u q t t' : accept (p ++ EEmpty u :: q) = OK (Some t) -> accept (p ++ EOpen u :: q) <> OK (Some t').
+Proof.
+  intros H H'. apply accept_height in H. apply accept_height in H'.
+  rewrite height_app in *. cbn [height height1] in H, H'. lia.
+Qed.
+(** a failing step is final *)
+Lemma accept_err_prefix p k q : run repaired b0 p = Err k -> forall o, accept (p ++ q) <> OK o.
+Proof. intros H o H'. unfold accept in H'. rewrite run_app, H in H'. discriminate. Qed.
